@@ -1,13 +1,20 @@
 //! vh_core — properties about pure functions of dicom-core (and ul::address).
+mod c14;
 mod c17;
+mod c36;
 use vhc::*;
 
 fn main() {
     run_main(
         |prop, ctx| match prop {
+            "C14" => Some(c14::cases(ctx)),
             "C17" => Some(c17::cases(ctx)),
+            "C36" => Some(c36::cases(ctx)),
             _ => None,
         },
-        |_prop, _out| false,
+        |prop, out| match prop {
+            "C14" => c14::tables(out),
+            _ => false,
+        },
     );
 }
